@@ -28,7 +28,7 @@ import textstream as ts
 
 PID = "C01"
 MANIFEST = {
-    "text": "38 + 5 (text layer) Coq theorems over the evaluator model (explicit Panic outcome for every partial Rust operation on a "
+    "text": "38 + 5 (text layer) + 10 (Pratt fuel / Panic arms) Coq theorems over the evaluator model (explicit Panic outcome for every partial Rust operation on a "
             "modelled path): evaluation at any call-depth budget from any configuration whose innermost frame is Owned "
             "never returns Panic and keeps that invariant — for every operator/built-in implementation that does not "
             "panic itself; hypotheses discharged for the transcribed operators (26 ops x 3 broadcasting arms: no "
@@ -71,8 +71,18 @@ MANIFEST = {
             "bytes): C01_text_parse_total — the parser stage of the model never runs out of fuel, for EVERY text (from "
             "C10_peg_total: machine-checked termination of the PEG interpreter on the regenerated grammar with fuel "
             "128 + 48*bytes, via a termination certificate recomputed and re-checked on every build), so acceptance is a "
-            "total function of the text; C01_text_run_fuel_independent; C01_text_run_never_unmodelled (up to the Pratt "
-            "model's own fuel, counted 0 by the stream); C01_text_run_is_program_run; C01_text_statement_spans_inside",
+            "total function of the text; C01_text_run_fuel_independent; C01_text_run_never_unmodelled; "
+            "C01_text_run_is_program_run; C01_text_statement_spans_inside.  PRATT FUEL (+10 theorems, proofs/PrattFuelAll*.v): "
+            "C01_pratt_fuel_sufficient — on EVERY item list (nested groups, also the ones the glue rejects or panics on) the "
+            "Pratt model run with the fuel the text layer gives it (4*items_size+4) never returns its out-of-fuel outcome; "
+            "hence C01_text_run_never_unmodelled_total — for EVERY byte string, inputs object and oracle the text run is TRun "
+            "(no Unmodelled result) / TReject / TParsePanic, no hypothesis left; C01_text_parse_never_fuel; "
+            "C01_text_statement_arms_unreachable — the statement loop's unreachable!() and no-inner-pair arms are not reachable "
+            "on parsed texts; C01_pratt_table_total / C01_pratt_closure_arms_unreachable / C01_pratt_postfix_rules — the Pratt arms "
+            "that depend on the regenerated operator table only (rule missing from the table or from the closure maps) are "
+            "excluded for every token stream, exhaustively over the 34 rules.  PARTIAL: the remaining Panic arms inside Pratt.v "
+            "(operator in operand position, operand in operator position, empty stream: C01_text_pratt_no_panic_on_parsed_full) and the "
+            "PEG engine's empty-stack expect (TParsePanic) are not excluded by a theorem — counted 0 by the TEXT-EVAL / PARSE-text streams",
     "note": "trusted: Coq kernel + vm_compute; transcription of evaluate_ast / FunctionDef::call / evaluate_binary_op_ast "
             "and of every built-in arm (validated by the EVAL correspondence in both overflow semantics and by the ALL "
             "correspondence: model with oracle tables dumped by the harness vs implementation, plus the real binary's "
